@@ -468,6 +468,15 @@ def _r5(ctx, pkg):
         ok = simp(l1.iter) == ("param", "complist") and simp(l2.iter)[0] == "meth" and simp(l2.iter)[2] == "items" and \
             simp(l2.iter)[1] == ("call", ("global", "getattr"), (("elem", ("param", "complist"), l1.id), ("param", "var_type")), ()) and \
             simp(st[0].index) == ("key", simp(l2.iter)[1], l2.id) and simp(st[0].value) == ("val", simp(l2.iter)[1], l2.id)
+    if not ok:
+        # equivalent spelling: variables.update(getattr(comp, var_type)[.items()]) once per component
+        up = [f for f in fl.facts if f.kind == "mutate" and f.target == acc and f.op == "update"]
+        if len(up) == 1 and len(up[0].loops) == 1 and not up[0].guards and not st:
+            l1 = up[0].loops[0]
+            g = ("call", ("global", "getattr"), (("elem", ("param", "complist"), l1.id), ("param", "var_type")), ())
+            a = simp(up[0].value) if up[0].value else None
+            ok = simp(l1.iter) == ("param", "complist") and a in (g, ("meth", g, "items", (), ()))
+            st = up
     brk = [f for f in fl.facts if f.kind in ("break", "continue")]
     ctx.check(ok and not brk, "R5", "_collect_variable_items:every component", (UTIL, fn.lineno),
               "every item of every component's params/deriveds/constants is merged (keyed by symbol), unconditionally",
